@@ -340,6 +340,23 @@ def check(col: Collector, tier: str):
                 f"token variable type {ty}, scope {sc} (a scope object, not the class)", g.loc)
     fld = [c for c in ast.walk(g.node) if isinstance(c, ast.Call) and call_name(c) == "append" and src(c.func.value).endswith(".fields")]
     col.add("C06.R7", g.short, "token-registered-as-field", len(fld) == 1, "the (token variable, initialiser) pair must be appended to the code value's fields", g.loc)
+    # producer/consumer agreement on the pair's layout: (variable, initialiser text) - process_ast_node declares and assigns [0], substitutes [1]
+    pair = fld[0].args[0] if len(fld) == 1 and fld[0].args and isinstance(fld[0].args[0], ast.Tuple) and len(fld[0].args[0].elts) == 2 else None
+    prod_ok = pair is not None and isinstance(resolve_name(g.node, pair.elts[0]), ast.Call) and call_name(resolve_name(g.node, pair.elts[0])) == "cpp_variable" \
+        and isinstance(resolve_name(g.node, pair.elts[1]), (ast.JoinedStr, ast.Constant))
+    pan = repo.function("process_ast_node")
+    cons_ok = False
+    for lp in [n for n in walk_no_nested(pan.node) if isinstance(n, ast.For) and src(n.iter).endswith(".fields")]:
+        it = src(lp.target)
+        decl = [c for c in ast.walk(lp) if isinstance(c, ast.Call) and call_name(c) == "declare_class_variable"]
+        setv = [c for c in ast.walk(lp) if isinstance(c, ast.Call) and call_name(c) == "set_var"]
+        subs = [c for c in ast.walk(lp) if isinstance(c, ast.Call) and call_name(c) == "_substitute_arguments"]
+        cons_ok = len(decl) == 1 and [src(a) for a in decl[0].args] == [f"{it}[0]"] and len(setv) == 1 and src(setv[0].args[0]) == f"{it}[0]" \
+            and len(subs) == 1 and src(subs[0].args[0]) == f"{it}[1]" and isinstance(setv[0].args[1], ast.Call) \
+            and (src(setv[0].args[1].args[0]) == src(subs[0]) or any(isinstance(a, ast.Assign) and src(a.targets[0]) == src(setv[0].args[1].args[0]) and a.value is subs[0] for a in ast.walk(lp)))
+    col.add("C06.R7", "CPPCodeValue.fields", "pair-layout-agrees:(variable, initialiser)", prod_ok and cons_ok,
+            f"the producer appends (cpp_variable, text) [{prod_ok}]; process_ast_node must declare <pair>[0] as a class variable and book "
+            f"set_var(<pair>[0], <pair>[1] with the arguments substituted) [{cons_ok}]", pan.loc)
     no_class_unique = not [c for c in ast.walk(coder.node) if isinstance(c, ast.Assign) and c in coder.node.body]
     col.add("C06.R7", coder.name, "no-class-level-names", no_class_unique, "no name may be computed at class level (evaluated once per process)", coder.module.rel)
 
